@@ -105,6 +105,31 @@ fn zoo(g: &mut Gen, lines: &mut Vec<String>, size: usize) -> Vec<String> {
     names
 }
 
+/// integer vectors PRODUCED BY LOADING must be the vectors that were saved: empty ones of every kind of width (fresh, cleared,
+/// popped empty) keep their width — equality, bytes, and what a later push stores; also non-empty ones after pops
+pub fn iv_reload_groups(g: &mut Gen) {
+    for w in [1u64, 2, 7, 13, 31, 32, 33, 63, 64] {
+        let mut lines = vec![format!("iv E new {}", w)];
+        lines.push("ser sizes E".to_string()); lines.push("ser file E".to_string()); lines.push("ser reload E Y extra=1".to_string());
+        lines.push("iv E eq Y".to_string()); lines.push(format!("iv Y push {}", MAXU)); lines.push("iv Y items".to_string()); lines.push("iv Y ser".to_string());
+        lines.push(format!("iv C with_len 3 {} {}", w, 5 & if w == 64 { MAXU } else { (1u64 << w) - 1 }));
+        lines.push("iv C clear".to_string()); lines.push("ser reload C Y2 extra=0".to_string()); lines.push("iv C eq Y2".to_string());
+        lines.push(format!("iv Y2 push {}", MAXU - 1)); lines.push("iv Y2 items".to_string());
+        lines.push(format!("iv P with_len 2 {} 1", w)); lines.push("iv P pop".to_string()); lines.push("iv P pop".to_string());
+        lines.push("ser reload P Y3 extra=2".to_string()); lines.push("iv P eq Y3".to_string()); lines.push("iv Y3 push 1".to_string()); lines.push("iv Y3 ser".to_string());
+        lines.push("ser seq E C P E".to_string());
+        g.group(lines);
+    }
+    for w in [1u64, 5, 13, 64] {
+        let mask = if w == 64 { MAXU } else { (1u64 << w) - 1 };
+        let items: Vec<u64> = (0..9).map(|_| g.rng.next() & mask).collect();
+        let mut lines = vec![format!("iv A new {}", w), format!("iv A extend {}", ws(&items)), "iv A pop".to_string(), "iv A pop".to_string()];
+        lines.push("ser reload A Y extra=1".to_string()); lines.push("iv A eq Y".to_string()); lines.push("iv Y items".to_string());
+        lines.push(format!("iv Y push {}", MAXU)); lines.push("iv Y ser".to_string());
+        g.group(lines);
+    }
+}
+
 pub fn c06(g: &mut Gen) {
     // plain values: every Serialize type at boundary sizes; serialize (checked against the document) and load back with
     // trailing data in the stream
@@ -183,18 +208,7 @@ pub fn c06(g: &mut Gen) {
     // degenerate values through save / load: EMPTY integer vectors of every kind of width (fresh, cleared, popped empty —
     // the loaded vector must keep the width: equality, bytes, and what a later push stores), all-zero / single-symbol /
     // one-item wavelet matrices, all-zero and all-one bitvectors with every support subset, empty sparse and run-length vectors
-    for w in [1u64, 2, 7, 13, 31, 32, 33, 63, 64] {
-        let mut lines = vec![format!("iv E new {}", w)];
-        lines.push("ser sizes E".to_string()); lines.push("ser file E".to_string()); lines.push("ser reload E Y extra=1".to_string());
-        lines.push("iv E eq Y".to_string()); lines.push(format!("iv Y push {}", MAXU)); lines.push("iv Y items".to_string()); lines.push("iv Y ser".to_string());
-        lines.push(format!("iv C with_len 3 {} {}", w, 5 & if w == 64 { MAXU } else { (1u64 << w) - 1 }));
-        lines.push("iv C clear".to_string()); lines.push("ser reload C Y2 extra=0".to_string()); lines.push("iv C eq Y2".to_string());
-        lines.push(format!("iv Y2 push {}", MAXU - 1)); lines.push("iv Y2 items".to_string());
-        lines.push(format!("iv P with_len 2 {} 1", w)); lines.push("iv P pop".to_string()); lines.push("iv P pop".to_string());
-        lines.push("ser reload P Y3 extra=2".to_string()); lines.push("iv P eq Y3".to_string()); lines.push("iv Y3 push 1".to_string()); lines.push("iv Y3 ser".to_string());
-        lines.push("ser seq E C P E".to_string());
-        g.group(lines);
-    }
+    iv_reload_groups(g);
     for (i, vals) in [vec![0u64; 1], vec![0; 2], vec![0; 9], vec![0; 64], vec![0; 65], vec![5; 7], vec![1; 64], vec![255; 3], vec![0, 0, 1], vec![1, 0, 0], vec![0, 2, 0, 2],
                       vec![7], vec![0, 1, 2, 3], vec![3, 3, 3, 3, 0]].iter().enumerate() {
         let ty = ["u8", "u64", "u16", "usize", "u32"][i % 5];
@@ -373,6 +387,12 @@ pub fn c19(g: &mut Gen) {
         let mut lines = vec![format!("ser load sp cut=- x=ok store=S : {}", ws(&doc_sparse(n, &vals, w)))];
         lines.push(format!("sp S ref {} {}", n, ws(&vals)));
         for i in [0u64, 1, n / 2, n] { lines.push(format!("sp S rank {}", i)); lines.push(format!("sp S select {}", i % (m + 1))); lines.push(format!("sp S select0 {}", i)); lines.push(format!("sp S pred {}", i)); }
+        // …for every low width the file format admits (1..=64), not only the ones the crate's own builder chooses
+        for w2 in [7u64, 20, 33, 62, 63, 64] {
+            lines.push(format!("ser load sp cut=- x=ok store=S2 : {}", ws(&doc_sparse(n, &vals, w2))));
+            lines.push("sp S2 len".to_string()); lines.push("sp S2 ones".to_string());
+            for i in [0u64, n / 2, n] { lines.push(format!("sp S2 rank {}", i)); lines.push(format!("sp S2 select {}", i % (m + 1))); lines.push(format!("sp S2 select0 {}", i)); lines.push(format!("sp S2 succ {}", i)); }
+        }
         let wmv: Vec<u64> = (0..m).map(|_| g.rng.below(9)).collect();
         lines.push(format!("ser load wm cut=- x=ok store=W : {}", ws(&doc_wm(&wmv))));
         lines.push(format!("wm W ref {}", ws(&wmv)));
